@@ -713,3 +713,15 @@ def find_path_edges(g, starts, is_target, avoid, avoid_edge, model=EXPLICIT):
                 prev[t.id] = n
                 work.append(t)
     return None
+
+
+def tail_spellings(fn, attr: str) -> list[str]:
+    """Texts under which the bytes retained in `self.<attr>` appear in guards: the attribute itself and every non-constant value assigned to it
+    in `fn` (as written, and with single-definition locals resolved): a limit may be tested on the value before it is stored."""
+    out = [f"self.{attr}"]
+    for a in ast.walk(_root(fn)):
+        if isinstance(a, ast.Assign) and any(norm.raw(t) == f"self.{attr}" for t in a.targets) and not isinstance(a.value, ast.Constant) and norm.raw(a.value) not in ("EMPTY", "b''"):
+            for t in (norm.raw(a.value), norm.text(a.value, a)):
+                if t not in out and f"self.{attr}" not in t:
+                    out.append(t)
+    return out
